@@ -32,7 +32,7 @@ def ws_init():
     if not os.path.exists(lock):
         shutil.copy(os.path.join(REPO, "Cargo.lock"), lock)
     # the support crate is copied into the workspace (members must live below the root)
-    copies = [(SUPPORT, os.path.join(WS, "vsupport"), rel) for rel in ("Cargo.toml", "src/lib.rs", "src/probe.rs", "src/bin/strenv.rs")]
+    copies = [(SUPPORT, os.path.join(WS, "vsupport"), rel) for rel in ("Cargo.toml", "src/lib.rs", "src/probe.rs", "src/sweep.rs", "src/bin/strenv.rs")]
     copies += [(os.path.join(os.path.dirname(SUPPORT), "analyser"), os.path.join(WS, "vanalyse"), rel) for rel in ("Cargo.toml", "src/main.rs")]
     for (srcdir, dst, rel) in copies:
         a, b = os.path.join(srcdir, rel), os.path.join(dst, rel)
